@@ -20,5 +20,5 @@ for c in list(mod.CONTRACTS) + list(getattr(mod, "CANARIES", [])):
             k = (o.get("clause"), o["verdict"], (o.get("reason") or "")[:60])
             if k in seen: continue
             seen.add(k)
-            print("    ", o["name"], o["verdict"], (o.get("reason") or "")[:200], o.get("outcome"), {a: b for a, b in (o.get("model") or {}).items() if not isinstance(b, int) or abs(b) < 10**6}, o.get("frame_violation") or "")
+            print("    ", o["name"], o["verdict"], (o.get("reason") or "")[:200], str(o.get("outcome"))[:90], {a: b for a, b in (o.get("model") or {}).items() if not isinstance(b, int) or abs(b) < 10**6}, o.get("frame_violation") or "")
             if o.get("tb") and os.environ.get("TB"): print(o["tb"])
